@@ -191,7 +191,12 @@ struct Aig {
 }
 
 fn gen_aig_struct(rng: &mut StdRng) -> Aig {
-    let i = rng.gen_range(0..3);
+    gen_aig_struct_i(rng, false)
+}
+/// big_inputs: the binary format does not list its inputs, so thousands of them cost nothing - and make the delta
+/// codes of the and-gates two, three and four bytes long
+fn gen_aig_struct_i(rng: &mut StdRng, big_inputs: bool) -> Aig {
+    let i = if big_inputs && rng.gen_range(0..3) == 0 { [70usize, 9000, 1_200_000][rng.gen_range(0..3)] } else { rng.gen_range(0..3) };
     let l = rng.gen_range(0..3);
     let a = rng.gen_range(0..4);
     let mut ands = vec![];
@@ -230,7 +235,7 @@ fn aig_header(a: &Aig, tag: &str, rng: &mut StdRng) -> String {
 
 fn aig_tail(a: &Aig, rng: &mut StdRng, out: &mut Vec<u8>) {
     let mut sym = |k: char, n: usize, out: &mut Vec<u8>, rng: &mut StdRng| {
-        for idx in 0..n {
+        for idx in (0..n.min(3)).chain(if n > 3 { Some(n - 1) } else { None }) {
             if rng.gen_range(0..3) == 0 {
                 out.extend_from_slice(format!("{}{} ", k, idx).as_bytes());
                 out.extend_from_slice([&b"x"[..], b"name with space", b"", "\u{3bb}".as_bytes(), b"c"][rng.gen_range(0..5)]);
@@ -318,7 +323,7 @@ pub fn gen_aag(rng: &mut StdRng) -> Vec<u8> {
 }
 
 pub fn gen_aig(rng: &mut StdRng) -> Vec<u8> {
-    let a = gen_aig_struct(rng);
+    let a = gen_aig_struct_i(rng, true);
     let mut out = aig_header(&a, "aig", rng).into_bytes();
     out.extend_from_slice(aig_sections_text(&a, true).as_bytes());
     for (k, (x, y)) in a.ands.iter().enumerate() {
